@@ -86,6 +86,7 @@ type FS struct {
 	calls  []Call
 	seq    int
 	before func(c *Call)
+	after  func(c *Call)
 
 	// CrashMode: file data reaches the durable image only through Sync.
 	CrashMode bool
@@ -110,6 +111,10 @@ func (f *FS) SetRecording(on bool) { f.recMu.Lock(); f.rec = on; f.recMu.Unlock(
 // SetBefore installs a hook that runs before every backend call, outside the
 // filesystem lock (it may block).
 func (f *FS) SetBefore(h func(c *Call)) { f.recMu.Lock(); f.before = h; f.recMu.Unlock() }
+
+// SetAfter installs a hook that runs after every backend call has taken effect
+// and before it returns to the caller, outside the filesystem lock (it may block).
+func (f *FS) SetAfter(h func(c *Call)) { f.recMu.Lock(); f.after = h; f.recMu.Unlock() }
 
 // Calls returns a copy of the recorded calls.
 func (f *FS) Calls() []Call {
@@ -145,7 +150,11 @@ func (f *FS) leave(c *Call, err error) {
 	if f.rec {
 		f.calls = append(f.calls, *c)
 	}
+	h := f.after
 	f.recMu.Unlock()
+	if h != nil {
+		h(c)
+	}
 }
 
 func perr(op, p string, e error) error { return &os.PathError{Op: op, Path: p, Err: e} }
